@@ -1,8 +1,45 @@
 (* RandProofs.v — C18: random generation over a scripted word stream refines its Z-level
    specification (SpecRand.v), stays within the requested bounds, and bounded sampling returns
    the first candidate below the bound. *)
-From BigNum Require Import Base BaseLemmas AddSub AddSubProofs Sign SpecSign SignProofs Rand SpecRand.
+From BigNum Require Import Base BaseLemmas SrcLit SrcLitLemmas AddSub AddSubProofs Sign SpecSign SignProofs Rand SpecRand.
 Open Scope Z_scope.
+
+(** ** the source-extracted parameters the proofs are about *)
+Definition rand_std : rand_params := {|
+  rnp_bits_rem_cmp := Cgt; rnp_bits_width := 32; rnp_bits_sub := true;
+  rnp_word_bits := 32; rnp_len_rem_cmp := Cgt; rnp_native_bits := 64;
+  rnp_zero_neg := false; rnp_redraw_then := true; rnp_zero_sign := NoSign;
+  rnp_true_sign := Plus; rnp_false_sign := Minus;
+  rnp_below_assert_neg := true; rnp_below_cmp := Clt;
+  rnp_urange_cmp := Clt; rnp_urange_zero_neg := false;
+  rnp_irange_cmp := Clt; rnp_irange_lo_neg := false; rnp_irange_hi_neg := false;
+  rnp_uu_new_cmp := Clt; rnp_uu_incl_cmp := Cle; rnp_ui_new_cmp := Clt; rnp_ui_incl_cmp := Cle |}.
+
+Definition rand_ok (p : rand_params) : bool :=
+  cmpop_eqb (rnp_bits_rem_cmp p) Cgt && (rnp_bits_width p =? 32) && Bool.eqb (rnp_bits_sub p) true
+  && (rnp_word_bits p =? 32) && cmpop_eqb (rnp_len_rem_cmp p) Cgt && (rnp_native_bits p =? 64)
+  && Bool.eqb (rnp_zero_neg p) false && Bool.eqb (rnp_redraw_then p) true && sign_eqb (rnp_zero_sign p) NoSign
+  && sign_eqb (rnp_true_sign p) Plus && sign_eqb (rnp_false_sign p) Minus
+  && Bool.eqb (rnp_below_assert_neg p) true && cmpop_eqb (rnp_below_cmp p) Clt
+  && cmpop_eqb (rnp_urange_cmp p) Clt && Bool.eqb (rnp_urange_zero_neg p) false
+  && cmpop_eqb (rnp_irange_cmp p) Clt && Bool.eqb (rnp_irange_lo_neg p) false
+  && Bool.eqb (rnp_irange_hi_neg p) false
+  && cmpop_eqb (rnp_uu_new_cmp p) Clt && cmpop_eqb (rnp_uu_incl_cmp p) Cle
+  && cmpop_eqb (rnp_ui_new_cmp p) Clt && cmpop_eqb (rnp_ui_incl_cmp p) Cle.
+
+(** every field is pinned: the accepted parameter record is exactly [rand_std] *)
+Lemma rand_ok_inv p : rand_ok p = true -> p = rand_std.
+Proof.
+  destruct p. unfold rand_ok, rand_std. cbn -[Z.eqb]. intros H. pin_fields_in H. subst. reflexivity.
+Qed.
+Ltac rn_std p H := apply rand_ok_inv in H; subst p.
+Ltac rn_red :=
+  cbn [rand_std rnp_bits_rem_cmp rnp_bits_width rnp_bits_sub rnp_word_bits rnp_len_rem_cmp rnp_native_bits
+       rnp_zero_neg rnp_redraw_then rnp_zero_sign rnp_true_sign rnp_false_sign rnp_below_assert_neg
+       rnp_below_cmp rnp_urange_cmp rnp_urange_zero_neg rnp_irange_cmp rnp_irange_lo_neg rnp_irange_hi_neg
+       rnp_uu_new_cmp rnp_uu_incl_cmp rnp_ui_new_cmp rnp_ui_incl_cmp
+       cmp_eval cmp_ord blit addsub_lit negb] in *;
+  rewrite ?Z.gtb_ltb in *.
 
 Definition words (s : list Z) : Prop := Forall word s.
 Definition lift_u (x : Z * list Z) : list Z * list Z := (enc (fst x), snd x).
@@ -173,16 +210,16 @@ Qed.
 Lemma u_from_slice_words w : words w -> strip (u32_pairs w) = enc (val32 w).
 Proof. apply u_from_slice_spec. Qed.
 
-Theorem gen_biguint_spec n s : 0 <= n -> words s ->
-  gen_biguint n s = omap lift_u (spec_gen_biguint n s).
+Theorem gen_biguint_spec p n s : rand_ok p = true -> 0 <= n -> words s ->
+  gen_biguint p n s = omap lift_u (spec_gen_biguint n s).
 Proof.
-  intros Hn Hs. unfold gen_biguint, spec_gen_biguint.
+  intros Hok; rn_std p Hok. intros Hn Hs. unfold gen_biguint, spec_gen_biguint. rn_red.
   rewrite (nwords_alt n Hn).
   set (native := let q := n / 64 in if 0 <? n mod 64 then q + 1 else q).
   assert (Hnat : nwords n <= native * 2).
   { subst native. unfold nwords. cbv zeta. destruct (Z.ltb_spec 0 (n mod 64)); lia. }
   replace (nwords n <=? native * 2) with true by (symmetry; apply Z.leb_le; lia).
-  cbn [assert_ bind]. unfold gen_bits. rewrite fill_u32_spec.
+  cbn [assert_ bind]. unfold gen_bits. rn_red. rewrite fill_u32_spec.
   destruct (take_words (Z.to_nat (nwords n)) s) as [[ws r]| |] eqn:T; cbn [bind omap]; try reflexivity.
   destruct (take_words_ret _ _ _ _ T) as (Es & Hl & _).
   assert (Hws : words ws) by (rewrite Es in Hs; apply words_app in Hs; apply Hs).
@@ -194,6 +231,9 @@ Proof.
     { intros ->. cbn [length] in Hlen. unfold nwords in Hlen. lia. }
     replace (0 <? length ws)%nat with true
       by (symmetry; apply Nat.ltb_lt; destruct ws; [contradiction|cbn; lia]).
+    cbn [assert_ bind].
+    replace ((0 <=? 32 - n mod 32) && (32 - n mod 32 <? 32)) with true
+      by (symmetry; apply andb_true_intro; split; [apply Z.leb_le|apply Z.ltb_lt]; lia).
     cbn [assert_ bind]. rewrite firstn_pred_removelast, nth_pred_last.
     rewrite Z.shiftr_div_pow2 by lia.
     replace (32 - n mod 32) with (top_shift n) by (unfold top_shift; lia).
@@ -254,11 +294,12 @@ Proof. intros Hc. rewrite uis_zero_spec by apply enc_canon. rewrite enc_val by a
 Lemma from_biguint_enc s c : 0 <= c -> from_biguint s (enc c) = ienc (sign_z s * c).
 Proof. intros Hc. rewrite from_biguint_ienc by apply enc_canon. rewrite enc_val by auto. reflexivity. Qed.
 
-Theorem gen_bigint_loop_spec f : forall n s, 0 <= n -> words s ->
-  gen_bigint_loop f n s = omap lift_i (spec_gen_bigint_loop f n s).
+Theorem gen_bigint_loop_spec p f : rand_ok p = true -> forall n s, 0 <= n -> words s ->
+  gen_bigint_loop p f n s = omap lift_i (spec_gen_bigint_loop f n s).
 Proof.
+  intros Hok. pose proof Hok as Hok'. rn_std p Hok. rename Hok' into Hok.
   induction f as [|f IH]; intros n s Hn Hs; [reflexivity|].
-  cbn [gen_bigint_loop spec_gen_bigint_loop]. rewrite gen_biguint_spec by auto.
+  cbn [gen_bigint_loop spec_gen_bigint_loop]. rn_red. rewrite gen_biguint_spec by auto.
   destruct (spec_gen_biguint n s) as [[c r]| |] eqn:G; cbn [omap bind]; try reflexivity.
   destruct (spec_gen_biguint_ret _ _ _ _ Hn Hs G) as (ws & _ & _ & _ & _ & Hr & Hc).
   unfold lift_u at 1; cbn [fst snd]. rewrite uis_zero_enc by lia.
@@ -271,8 +312,8 @@ Proof.
     destruct b; cbn [sign_z omap bind fst snd]; do 3 f_equal; lia.
 Qed.
 
-Theorem gen_bigint_spec n s : 0 <= n -> words s ->
-  gen_bigint n s = omap lift_i (spec_gen_bigint n s).
+Theorem gen_bigint_spec p n s : rand_ok p = true -> 0 <= n -> words s ->
+  gen_bigint p n s = omap lift_i (spec_gen_bigint n s).
 Proof. intros. apply gen_bigint_loop_spec; auto. Qed.
 
 Theorem spec_gen_bigint_loop_bound f : forall n s v r, 0 <= n -> words s ->
@@ -325,22 +366,24 @@ Proof.
 Qed.
 
 (** ** gen_biguint_below *)
-Theorem below_loop_spec f : forall bits bound s, 0 <= bits -> canon bound -> words s ->
-  below_loop f bits bound s = omap lift_u (spec_below_loop f bits (val bound) s).
+Theorem below_loop_spec p f : rand_ok p = true -> forall bits bound s, 0 <= bits -> canon bound -> words s ->
+  below_loop p f bits bound s = omap lift_u (spec_below_loop f bits (val bound) s).
 Proof.
+  intros Hok. pose proof Hok as Hok'. rn_std p Hok. rename Hok' into Hok.
   induction f as [|f IH]; intros bits bound s Hb Hc Hs; [reflexivity|].
-  cbn [below_loop spec_below_loop]. rewrite gen_biguint_spec by auto.
+  cbn [below_loop spec_below_loop]. rn_red. rewrite gen_biguint_spec by auto.
   destruct (spec_gen_biguint bits s) as [[c r]| |] eqn:G; cbn [omap bind]; try reflexivity.
   destruct (spec_gen_biguint_ret _ _ _ _ Hb Hs G) as (ws & _ & _ & _ & _ & Hr & Hcb).
   unfold lift_u at 1; cbn [fst snd].
   rewrite cmp_slice_spec by (auto using enc_canon). rewrite enc_val by lia. cbn [bind].
-  unfold Z.ltb. destruct (c ?= val bound); auto.
+  unfold Z.ltb. destruct (c ?= val bound); cbn [is_lt]; auto.
 Qed.
 
-Theorem gen_biguint_below_spec bound s : canon bound -> words s ->
-  gen_biguint_below bound s = omap lift_u (spec_below (val bound) s).
+Theorem gen_biguint_below_spec p bound s : rand_ok p = true -> canon bound -> words s ->
+  gen_biguint_below p bound s = omap lift_u (spec_below (val bound) s).
 Proof.
-  intros Hc Hs. unfold gen_biguint_below, spec_below.
+  intros Hok. pose proof Hok as Hok'. rn_std p Hok. rename Hok' into Hok.
+  intros Hc Hs. unfold gen_biguint_below, spec_below. rn_red.
   rewrite uis_zero_spec by auto.
   pose proof (val_nonneg bound (proj1 Hc)) as Hv.
   destruct (Z.eqb_spec (val bound) 0) as [E|E].
@@ -430,13 +473,13 @@ Proof.
   pose proof (length_concat_ge bits rej Hk Hrej'). rewrite app_length. lia.
 Qed.
 
-Theorem below_first bound rej acc rest : canon bound -> bound <> [] ->
+Theorem below_first p bound rej acc rest : rand_ok p = true -> canon bound -> bound <> [] ->
   let bits := Z.log2 (val bound) + 1 in
   Forall (fun c => chunk_ok bits c /\ words c /\ val bound <= cand bits c) rej ->
   chunk_ok bits acc -> words acc -> cand bits acc < val bound -> words rest ->
-  gen_biguint_below bound (concat rej ++ acc ++ rest) = Ret (enc (cand bits acc), rest).
+  gen_biguint_below p bound (concat rej ++ acc ++ rest) = Ret (enc (cand bits acc), rest).
 Proof.
-  intros Hc Hne bits Hrej Hacc Hwa Hlt Hwr.
+  intros Hok Hc Hne bits Hrej Hacc Hwa Hlt Hwr.
   assert (Hpos : 0 < val bound) by (apply canon_val_pos; auto).
   rewrite gen_biguint_below_spec; auto.
   - rewrite spec_below_first; auto.
@@ -454,10 +497,11 @@ Proof. destruct o as [[c r]| |]; reflexivity. Qed.
 Lemma spec_below_nonneg bound s c r : spec_below bound s = Ret (c, r) -> words s -> 0 <= c.
 Proof. intros E Hs. apply (spec_below_ret bound s c r Hs E). Qed.
 
-Theorem gen_biguint_range_spec p lo hi s : addsub_ok p = true -> canon lo -> canon hi -> words s ->
-  gen_biguint_range p lo hi s = omap lift_u (spec_range (val lo) (val hi) s).
+Theorem gen_biguint_range_spec rp p lo hi s : rand_ok rp = true -> addsub_ok p = true -> canon lo -> canon hi -> words s ->
+  gen_biguint_range rp p lo hi s = omap lift_u (spec_range (val lo) (val hi) s).
 Proof.
-  intros Hp Hlo Hhi Hs. unfold gen_biguint_range, spec_range.
+  intros Hok. pose proof Hok as Hok'. rn_std rp Hok. rename Hok' into Hok.
+  intros Hp Hlo Hhi Hs. unfold gen_biguint_range, spec_range. rn_red.
   rewrite cmp_slice_spec by auto. cbn [bind].
   pose proof (val_nonneg lo (proj1 Hlo)) as Vlo.
   destruct (Z.compare_spec (val lo) (val hi)) as [E|E|E]; cbn [is_lt assert_ bind];
@@ -486,21 +530,22 @@ Qed.
 Lemma mag_ienc z : mag (ienc z) = enc (Z.abs z). Proof. reflexivity. Qed.
 
 (** the common tail: `lbound + BigInt::from(gen_biguint_below(m))` *)
-Lemma irange_tail p lo m s : addsub_ok p = true -> icanon lo -> canon m -> words s ->
-  (do x <- gen_biguint_below m s; let '(n, r) := x in do v <- iadd p lo (ifrom_u n); Ret (v, r))
+Lemma irange_tail rp sp p lo m s : rand_ok rp = true -> sign_ok sp = true -> addsub_ok p = true -> icanon lo -> canon m -> words s ->
+  (do x <- gen_biguint_below rp m s; let '(n, r) := x in do v <- iadd p lo (ifrom_u sp n); Ret (v, r))
   = omap lift_i (do x <- spec_below (val m) s; let '(c, r) := x in Ret (ival lo + c, r)).
 Proof.
-  intros Hp Hlo Hm Hs. rewrite gen_biguint_below_spec by auto.
+  intros Hok Hsp Hp Hlo Hm Hs. rewrite gen_biguint_below_spec by auto.
   destruct (spec_below (val m) s) as [[c r]| |] eqn:Bq; cbn [omap bind]; try reflexivity.
   pose proof (spec_below_nonneg _ _ _ _ Bq Hs) as Hc0.
-  unfold lift_u; cbn [fst snd]. rewrite ifrom_u_spec by apply enc_canon. rewrite enc_val by lia.
+  unfold lift_u; cbn [fst snd]. rewrite ifrom_u_spec by (auto; apply enc_canon). rewrite enc_val by lia.
   rewrite iadd_spec by (auto using ienc_canon). rewrite ienc_val. reflexivity.
 Qed.
 
-Theorem gen_bigint_range_spec p lo hi s : addsub_ok p = true -> icanon lo -> icanon hi -> words s ->
-  gen_bigint_range p lo hi s = omap lift_i (spec_range (ival lo) (ival hi) s).
+Theorem gen_bigint_range_spec rp sp p lo hi s : rand_ok rp = true -> sign_ok sp = true -> addsub_ok p = true -> icanon lo -> icanon hi -> words s ->
+  gen_bigint_range rp sp p lo hi s = omap lift_i (spec_range (ival lo) (ival hi) s).
 Proof.
-  intros Hp Hlo Hhi Hs. unfold gen_bigint_range, spec_range.
+  intros Hok. pose proof Hok as Hok'. rn_std rp Hok. rename Hok' into Hok.
+  intros Hsp Hp Hlo Hhi Hs. unfold gen_bigint_range, spec_range. rn_red.
   rewrite icmp_spec by auto. unfold spec_icmp. cbn [bind].
   destruct (Z.compare_spec (ival lo) (ival hi)) as [E|E|E]; cbn [is_lt assert_ bind];
     try (replace (ival hi <=? ival lo) with true by (symmetry; apply Z.leb_le; lia); reflexivity).
@@ -511,7 +556,7 @@ Proof.
     rewrite icanon_pos_mag by (auto; lia). rewrite Z0, Z.sub_0_r.
     destruct (spec_below (ival hi) s) as [[c r]| |] eqn:Bq; cbn [omap bind]; try reflexivity.
     pose proof (spec_below_nonneg _ _ _ _ Bq Hs) as Hc0.
-    unfold lift_u, lift_i; cbn [fst snd]. rewrite ifrom_u_spec by apply enc_canon.
+    unfold lift_u, lift_i; cbn [fst snd]. rewrite ifrom_u_spec by (auto; apply enc_canon).
     rewrite enc_val by lia. reflexivity.
   - rewrite irange_tail by (auto using icanon_mag). rewrite icanon_neg_mag by (auto; lia).
     replace (ival hi - ival lo) with (- ival lo) by lia. reflexivity.
@@ -521,10 +566,11 @@ Proof.
 Qed.
 
 (** ** Uniform samplers *)
-Theorem uu_new_sample_spec p lo hi s : addsub_ok p = true -> canon lo -> canon hi -> words s ->
-  (do u <- uu_new p lo hi; uu_sample p u s) = omap lift_u (spec_range (val lo) (val hi) s).
+Theorem uu_new_sample_spec rp p lo hi s : rand_ok rp = true -> addsub_ok p = true -> canon lo -> canon hi -> words s ->
+  (do u <- uu_new rp p lo hi; uu_sample rp p u s) = omap lift_u (spec_range (val lo) (val hi) s).
 Proof.
-  intros Hp Hlo Hhi Hs. unfold uu_new, uu_sample, spec_range.
+  intros Hok. pose proof Hok as Hok'. rn_std rp Hok. rename Hok' into Hok.
+  intros Hp Hlo Hhi Hs. unfold uu_new, uu_sample, spec_range. rn_red.
   rewrite cmp_slice_spec by auto. cbn [bind].
   pose proof (val_nonneg lo (proj1 Hlo)) as Vlo.
   destruct (Z.compare_spec (val lo) (val hi)) as [E|E|E]; cbn [is_lt assert_ bind];
@@ -539,11 +585,12 @@ Proof.
   rewrite enc_val by lia. do 3 f_equal. lia.
 Qed.
 
-Theorem uu_new_inclusive_sample_spec p lo hi s : addsub_ok p = true -> canon lo -> canon hi -> words s ->
-  (do u <- uu_new_inclusive p lo hi; uu_sample p u s)
+Theorem uu_new_inclusive_sample_spec rp p lo hi s : rand_ok rp = true -> addsub_ok p = true -> canon lo -> canon hi -> words s ->
+  (do u <- uu_new_inclusive rp p lo hi; uu_sample rp p u s)
   = omap lift_u (spec_range_inclusive (val lo) (val hi) s).
 Proof.
-  intros Hp Hlo Hhi Hs. unfold uu_new_inclusive, spec_range_inclusive.
+  intros Hok. pose proof Hok as Hok'. rn_std rp Hok. rename Hok' into Hok.
+  intros Hp Hlo Hhi Hs. unfold uu_new_inclusive, spec_range_inclusive. rn_red.
   rewrite cmp_slice_spec by auto. cbn [bind].
   pose proof (val_nonneg lo (proj1 Hlo)) as Vlo. pose proof (val_nonneg hi (proj1 Hhi)) as Vhi.
   assert (Hgt : forall (X : outcome (list Z * list Z)),
@@ -553,18 +600,19 @@ Proof.
     try (replace (val hi <? val lo) with true by (symmetry; apply Z.ltb_lt; lia); reflexivity);
     (replace (val hi <? val lo) with false by (symmetry; apply Z.ltb_ge; lia));
     rewrite uadd_spec by (auto using canon_one); cbn [bind];
-    pose proof (uu_new_sample_spec p lo (enc (val hi + val [1])) s Hp Hlo (enc_canon _) Hs) as Hn;
+    pose proof (uu_new_sample_spec rand_std p lo (enc (val hi + val [1])) s Hok Hp Hlo (enc_canon _) Hs) as Hn;
     cbn [bind] in Hn; rewrite enc_val in Hn by (rewrite val_single; lia);
     rewrite val_single in *;
-    (destruct (uu_new p lo (enc (val hi + 1))) as [u| |]; cbn [bind] in *; rewrite Hn);
+    (destruct (uu_new rand_std p lo (enc (val hi + 1))) as [u| |]; cbn [bind] in *; rewrite Hn);
     unfold spec_range; (replace (val hi + 1 <=? val lo) with false by (symmetry; apply Z.leb_gt; lia));
     reflexivity.
 Qed.
 
-Theorem ui_new_sample_spec p lo hi s : addsub_ok p = true -> icanon lo -> icanon hi -> words s ->
-  (do u <- ui_new p lo hi; ui_sample p u s) = omap lift_i (spec_range (ival lo) (ival hi) s).
+Theorem ui_new_sample_spec rp sp p lo hi s : rand_ok rp = true -> sign_ok sp = true -> addsub_ok p = true -> icanon lo -> icanon hi -> words s ->
+  (do u <- ui_new rp sp p lo hi; ui_sample rp sp p u s) = omap lift_i (spec_range (ival lo) (ival hi) s).
 Proof.
-  intros Hp Hlo Hhi Hs. unfold ui_new, ui_sample, spec_range.
+  intros Hok. pose proof Hok as Hok'. rn_std rp Hok. rename Hok' into Hok.
+  intros Hsp Hp Hlo Hhi Hs. unfold ui_new, ui_sample, spec_range. rn_red.
   rewrite icmp_spec by auto. unfold spec_icmp. cbn [bind].
   destruct (Z.compare_spec (ival lo) (ival hi)) as [E|E|E]; cbn [is_lt assert_ bind];
     try (replace (ival hi <=? ival lo) with true by (symmetry; apply Z.leb_le; lia); reflexivity).
@@ -574,19 +622,20 @@ Proof.
   rewrite mag_ienc, enc_val by lia. rewrite Z.abs_eq by lia. reflexivity.
 Qed.
 
-Theorem ui_new_inclusive_sample_spec p lo hi s : addsub_ok p = true -> icanon lo -> icanon hi -> words s ->
-  (do u <- ui_new_inclusive p lo hi; ui_sample p u s)
+Theorem ui_new_inclusive_sample_spec rp sp p lo hi s : rand_ok rp = true -> sign_ok sp = true -> addsub_ok p = true -> icanon lo -> icanon hi -> words s ->
+  (do u <- ui_new_inclusive rp sp p lo hi; ui_sample rp sp p u s)
   = omap lift_i (spec_range_inclusive (ival lo) (ival hi) s).
 Proof.
-  intros Hp Hlo Hhi Hs. unfold ui_new_inclusive, spec_range_inclusive.
+  intros Hok. pose proof Hok as Hok'. rn_std rp Hok. rename Hok' into Hok.
+  intros Hsp Hp Hlo Hhi Hs. unfold ui_new_inclusive, spec_range_inclusive. rn_red.
   rewrite icmp_spec by auto. unfold spec_icmp. cbn [bind].
   destruct (Z.compare_spec (ival lo) (ival hi)) as [E|E|E]; cbn [is_le assert_ bind];
     try (replace (ival hi <? ival lo) with true by (symmetry; apply Z.ltb_lt; lia); reflexivity);
     (replace (ival hi <? ival lo) with false by (symmetry; apply Z.ltb_ge; lia));
     rewrite iadd_spec by (auto using icanon_ione); cbn [bind]; rewrite ival_ione;
-    pose proof (ui_new_sample_spec p lo (ienc (ival hi + 1)) s Hp Hlo (ienc_canon _) Hs) as Hn;
+    pose proof (ui_new_sample_spec rand_std sp p lo (ienc (ival hi + 1)) s Hok Hsp Hp Hlo (ienc_canon _) Hs) as Hn;
     cbn [bind] in Hn; rewrite ienc_val in Hn;
-    (destruct (ui_new p lo (ienc (ival hi + 1))) as [u| |]; cbn [bind] in *; rewrite Hn);
+    (destruct (ui_new rand_std sp p lo (ienc (ival hi + 1))) as [u| |]; cbn [bind] in *; rewrite Hn);
     unfold spec_range; (replace (ival hi + 1 <=? ival lo) with false by (symmetry; apply Z.leb_gt; lia));
     reflexivity.
 Qed.
@@ -815,20 +864,20 @@ Proof.
 Qed.
 
 (** gen_biguint on an explicitly split stream. *)
-Theorem gen_biguint_words n ws rest : 0 <= n -> words ws -> words rest -> chunk_ok n ws ->
-  gen_biguint n (ws ++ rest) = Ret (enc (cand n ws), rest) /\ 0 <= cand n ws < 2 ^ n.
+Theorem gen_biguint_words p n ws rest : rand_ok p = true -> 0 <= n -> words ws -> words rest -> chunk_ok n ws ->
+  gen_biguint p n (ws ++ rest) = Ret (enc (cand n ws), rest) /\ 0 <= cand n ws < 2 ^ n.
 Proof.
-  intros Hn Hw Hr Hc. split; [|apply cand_bound; auto].
+  intros Hok Hn Hw Hr Hc. split; [|apply cand_bound; auto].
   rewrite gen_biguint_spec by (auto; apply words_app; auto).
   rewrite spec_gen_biguint_app by auto. reflexivity.
 Qed.
 
-Theorem gen_bigint_first n red acc w rest : 0 <= n ->
+Theorem gen_bigint_first p n red acc w rest : rand_ok p = true -> 0 <= n ->
   Forall (redraw n) red -> chunk_ok n acc -> words (concat red ++ acc ++ w :: rest) ->
   (cand n acc <> 0 \/ Z.testbit w 31 = false) ->
-  gen_bigint n (concat red ++ acc ++ w :: rest)
+  gen_bigint p n (concat red ++ acc ++ w :: rest)
   = Ret (ienc (if Z.testbit w 31 then cand n acc else - cand n acc), rest).
 Proof.
-  intros Hn Hred Hacc Hw Hok. rewrite gen_bigint_spec by auto.
+  intros Hp Hn Hred Hacc Hw Hok. rewrite gen_bigint_spec by auto.
   rewrite spec_gen_bigint_first by auto. reflexivity.
 Qed.
